@@ -155,6 +155,25 @@ def _rest(P, R):
             same_machine = isinstance(v.func.value, ast.Name) and v.func.value.id in km_names
             same_data = len(v.args) == 1 and isinstance(v.args[0], ast.Name) and v.args[0].id == g.value_params[0]
             R.check(same_machine and same_data, "DEP.init", g.key, f"{t.attr} from {src(v)[:60]}", "same machine, same data", "cluster variances/weights are not computed by the fitted k-means machine on the training data", st.lineno)
+    # in the k-means arm, variances and weights are exactly what the fitted machine derives from the training data:
+    # every store of them (outside the MAP arm) has that call - on the training data - in its cone
+    from ..cfg import guards_of as _guards_of
+    n_vw = 0
+    for st, t, v, k in stores(g):
+        if isinstance(t, ast.Attribute) and isinstance(t.value, ast.Name) and t.value.id == g.self_name and t.attr in ("variances", "weights") and v is not None:
+            sst = gdu.stmt_of(st)
+            if any("'map'" in src(test) or '"map"' in src(test) for test, pol_ in _guards_of(sst) if pol_):
+                continue  # MAP arm: copied from the prior (C05)
+            n_vw += 1
+            c = cone(gdu, v, sst, interproc=False)
+            calls = [x for x in c.nodes if isinstance(x, ast.Call) and isinstance(x.func, ast.Attribute) and x.func.attr == "get_variances_and_weights_for_each_cluster"]
+            okc = bool(calls) and all(len(x.args) == 1 and isinstance(x.args[0], ast.Name) and x.args[0].id == g.value_params[0] for x in calls)
+            direct = isinstance(v, ast.Call) and v in calls
+            if isinstance(v, ast.Name):
+                rd_ = gdu.reaching(sst, v.id)
+                direct = bool(rd_) and all(d.how in ("assign", "unpack") and d.value in calls for d in rd_)
+            R.check(okc and direct, "DEP.init-exact", g.key, f"{src(t)} = {src(v)[:60]}", "exactly the per-cluster statistics of the training data", f"the initial {t.attr} are not (exactly) what the fitted k-means machine derives from the training data: {src(v)[:80]}", st.lineno)
+    R.floor("DEP.init-exact stores", n_vw, 2)
     from ..engines import dtype as _dt
     n_dt = _dt.check_function(P, R, "kmeans:accumulate_indices_means_vars", raw_params=("data",))
     n_dt += _dt.check_function(P, R, "kmeans:get_centroids_distance", raw_params=("x",))
